@@ -477,6 +477,18 @@ def sys_liveness(tier, rng):
                     if off < 0:
                         steps += [{"a": "Tick", "to": created + T}, {"a": "Live", "name": "c3", "prov": prov}]
                     behs.append({"cfg": {"policies": []}, "steps": steps, "tag": "live:%s:c%d:%+d:%s" % (kind, created, off, f)})
+    # the conditions are stamped by the controller itself, later than the claim's creation: the timeout runs from the stamp
+    for kind, T in (("launch", 300), ("registration", 900)):
+        for off in (-1, 0, 1):
+            prov = "err" if kind == "launch" else "ok"
+            steps = [{"a": "Pool", "name": "p"},
+                     claim_step("c3", "p", -1, "", launched="", registered="", instance=False, noFinalizer=True),
+                     {"a": "Tick", "to": 40}, {"a": "Live", "name": "c3", "prov": prov}, {"a": "Live", "name": "c3", "prov": prov},
+                     {"a": "Tick", "to": 40 + T - 2}, {"a": "Live", "name": "c3", "prov": prov}]
+            # approach second by second (the controller's own Sleep(1s) after a patch may have moved the stamp by a second)
+            for t in range(40 + T - 1, 40 + T + 3 + off):
+                steps += [{"a": "Tick", "to": t}, {"a": "Live", "name": "c3", "prov": prov}]
+            behs.append({"cfg": {"policies": []}, "steps": steps, "tag": "live-late-stamp:%s:%+d" % (kind, off)})
     return behs
 
 
